@@ -118,6 +118,8 @@ def build(pa, rng, count, rep):
             rep.violation("invariance.raises", {"exception": repr(ex), "shape": shape, "dissim": kind, "delta_empty": de})
             continue
         tk = tks[(it // len(kinds)) % len(tks)]
+        if shape[0] >= 4 and not mixed:      # many annotators: mostly renamings / permutations (the column order of the ILP changes)
+            tk = rng.choice(["permute", "rename", "permute", tk])
         if mixed:        # unlabelled units next to labelled ones: mostly under arbitrary renamings (which category sorts first changes)
             tk = rng.choice(["catrename_any", "catrename_any", "catrename_any", "delta_empty", "rename"])
         it += 1
